@@ -22,6 +22,10 @@ def harnesses(tier):
         ('h_read_double', 'ReadDouble: consumes a number inside the input or reports a located error', [], [])]:
         hs.append(Harness(n, 'token', unwind=L + 3, timeout=900 if tier == 'quick' else 3600, mem_gb=44, bounds='input <= %d bytes' % L, claims=c, assumptions=A,
                           defines=['MAXLEN=%d' % L] + extra, known=kf, tv_cases=1500, flags=['--object-bits', '12'], backend='cadical' if 'int' in n or 'long' in n or 'short' in n else 'sat'))
+    for op, nm in ((0, 'int'), (1, 'uint'), (2, 'short'), (3, 'long'), (4, 'double'), (5, 'string')):
+        h = Harness('h_bin', 'token', unwind=L + 3, timeout=600 if tier == 'quick' else 3600, mem_gb=24, bounds='input <= %d bytes, any cursor' % L, assumptions=A[:1], defines=['MAXLEN=%d' % L, 'BINOP=%d' % op], tv_cases=300, flags=['--object-bits', '12'],
+                    claims='BinaryReader::%s: read iff the whole item lies inside the input, value = the bytes in native order, BinaryReadError otherwise, nothing read past the end' % nm)
+        h.label = 'h_bin[%s]' % nm; hs.append(h)
     SH = {1: 'C b', 2: 'b L', 3: 'O b', 4: 'V b', 5: 'b F', 6: 'b J', 7: 'G b', 8: 'b r', 9: 'k b', 10: 'b x', 11: 'b d', 12: 'S0 b', 13: 'b S5', 14: 'b S2', 15: 'b S7', 16: 'V C b', 17: 'b J r'}
     AS = ['file = token script of the enumerated segment sequence (token kinds and read positions concrete); every index, count that does not change the layout, sense and number symbolic (31-bit / any double); header: 2 variables, 2 algebraic constraints, 0..3 objectives / logical constraints / functions, 0..2 common expressions (symbolic)',
           'token layer = symbolic reader with the contract decided by the token harnesses above; expressions: a reference, a number, one unary / relational operator over them']
